@@ -97,7 +97,13 @@ func c03Profiles(tier string) []Profile {
 		d, dj = 4, 3
 	}
 	thorough := tier == "thorough"
-	return []Profile{
+	var conc []Profile
+	for _, sc := range append(c05Scenarios(), c05More()...) {
+		if sc.Name == "S8-flushes" || sc.Name == "S4-flush" {
+			conc = append(conc, sc.Profile(1))
+		}
+	}
+	return append(conc, []Profile{
 		{Name: "crash", Exec: c03Exec(d, true, false, true, thorough),
 			Rule: fmt.Sprintf("every history of length <= %d (plus a final Flush) over Set/Delete on x, Set on y, SetCollection/RemoveCollection(y), Flush, Reopen, and Set of adversarial values (MagicEnd x2; MagicBeg x2; a root trailer with offset 0; the leading half of a root record; the trailer of, and a byte-exact copy of, the genuine previous root record) x every prefix of the ordered file writes x every byte-granular truncation of the write in flight; each crash image is opened with NewStore and must equal, through the whole read API, the model state of the most recent Flush whose writes all lie inside the image (empty store or the documented 'no roots' error if none); an independent decoder must agree on which root record is the last complete one; the recovered store then takes a Set and a Flush whose result must be durable (quick: at write boundaries and 4 cuts per write; thorough: every image)", d)},
 		{Name: "stale", Exec: c03ExecPre(2, true, false, true, false, func(w *harness.World, flush func(w *harness.World)) {
@@ -118,7 +124,7 @@ func c03Profiles(tier string) []Profile {
 		}), Rule: "one history [Set(a) Flush Set(b, 9000-byte value) Flush] x every one of the ~9200 byte-granular crash points: every length 0..9100 of uncommitted bytes after the last complete root record (a backward scan that proceeds in chunks of any size up to 8 KiB meets every alignment of the end marker)"},
 		{Name: "junk", Exec: c03Exec(dj, false, true, false, false),
 			Rule: fmt.Sprintf("every history of length <= %d x crash images at write boundaries and cuts {1, n/2, n-1} x every adversarial junk tail and every proper prefix of it appended after the image", dj)},
-	}
+	}...)
 }
 
 func init() {
